@@ -253,4 +253,26 @@ PROPS.update({
         "trusted_base": [KERNEL, HARNESS, FIELD_MODEL],
         "assumptions": ["time and memory bounds, allocator aborts and stack depth are outside the model (labelled partial)"],
     },
+    "C04": {
+        "streams": ["c04"],
+        "driver": True,
+        "extractors": ["T6", "T3s"],
+        "instances": n_stages,
+        "rule": "every shipped scenario of all 30 types, drawn and mutated systematically at the JSON level: every member removed (one at a "
+                "time); party / floor-limit / field-72 members added to the body and to every sequence element; every currency, indicator, "
+                "type_code, instruction code, D/C mark and BIC leaf replaced by alternatives; every sequence array repeated to 2, 10 and 11 "
+                "elements; reject/return lines pushed into every text array; every amount shifted by 1, 0.5 and set to 0; plus random pairs "
+                "of those and random structural mutations. Each mutant that still deserialises is validated by the real "
+                "validate_network_rules(false); the error-code list is compared with the Lean rule model evaluated on the same JSON "
+                "(26 of 30 types modelled: 17 with rules, 9 without any rule). Non-trivial = non-empty error list; distinct = (type, code list). "
+                "The evidence tallies every (type, code) pair that was triggered.",
+        "modelled": "rule functions of MT110, 192, 196, 200, 202, 204, 205, 210, 292, 296, 910, 920, 935, 940, 941, 942, 950 (46 rules) over views "
+                    "read through the regenerated struct declarations (T3s) and aggregated by the regenerated stage lists (T6); the 9 types "
+                    "without rules; NOT yet modelled: MT101, 103, 104, 107 (49 rules) - exercised by this stream's generator and the C13 oracle only",
+        "trusted_base": [KERNEL, TRANSLATOR, HARNESS,
+                         "hand models SwiftMT/Rules.lean of the rule functions (modelled, not verified; every generated mutant is compared)",
+                         "the documented side of each rule is stated in the theorem statements of Props/C04.lean (my reading of the rule's doc comment / SR2025)"],
+        "assumptions": ["a message is what serde_json::to_value shows of it (rules read public fields only)",
+                        "sums of amounts are compared exactly in the model; the implementation's f64 comparison agrees away from the 0.01 boundary (boundary mutants are not generated)"],
+    },
 })
